@@ -85,6 +85,7 @@ class Contract(object):
         self.setup = None               # fn(ex, env) run after argument creation (object invariants etc.)
         self.post_hooks = []
         self.frame_check = None
+        self.theories = set()           # optional axiom groups (sym.GROUPS) the obligations of this contract need
         self.functional = None          # optional fn(**args) -> value: `result == functional(args)` IS the postcondition
 
     # -- declaration API
@@ -110,8 +111,9 @@ class Contract(object):
         self.result = maker
         return self
 
-    def loop(self, ordinal, invariant, decreases=None, index=None, havoc=None):
-        self.loops[ordinal] = LoopSpec(invariant, decreases, index, havoc)
+    def loop(self, ordinal, invariant, decreases=None, index=None, havoc=None, ghost=None):
+        """ghost: {name: (initial value fn(env) , step fn(env) -> new value)} - ghost counters advanced once per iteration"""
+        self.loops[ordinal] = LoopSpec(invariant, decreases, index, havoc, ghost)
         return self
 
     def inline(self, *quals):
@@ -181,6 +183,9 @@ class Contract(object):
                     ex.oblige("%s#%s" % (tag, label), call_named(fn, env, ex), "ensures", node.lineno)
             ex.cur_func = tag
             saved = (ex.force_inline, ex.no_contract)
+            saved_th, saved_ax = ex.theories, getattr(ex, "extra_axioms", [])
+            ex.theories = set(self.theories)
+            ex.extra_axioms = []
             ex.force_inline = ex.force_inline | self.inline_callees
             ex.no_contract = ex.no_contract | self.no_contract
             try:
@@ -189,6 +194,7 @@ class Contract(object):
                 limits.append("%s: %s" % (tag, e))
             finally:
                 ex.force_inline, ex.no_contract = saved
+                ex.theories, ex.extra_axioms = saved_th, saved_ax
         return total_paths, limits
 
     def _check_raise(self, ex, e, env, tag):
